@@ -77,6 +77,17 @@ CHECKS.update({
                "TLA+ tree-surgery results exported by TLC per node; patches built from match pointers applied by the implementation and compared", "5 (C20)"),
 })
 
+CHECKS.update({
+    "C11": _mc("the compound-query fold (spec/JsonPath.tla Compound, MC_Compound.tla)",
+               "compound queries of 1-3 (4) operands in every |/& arrangement, one operator per step, fold = closed form, monotonicity, termination",
+               "Trusted: the left-fold reading of | and & as restated by the property; intersection universes avoid bool/number look-alikes.",
+               "TLA+ fold state machine model-checked with TLC; each compound query evaluated through 15 entry points x 3 document forms", "5 (C11)"),
+    "C13": _mc("the evaluation machine with the extension constructs (spec/JsonPath.tla, MC_Ext.tla)",
+               "each documented extension in every position, direct semantics = desugared standard form (DesugarAgrees), six alias spellings",
+               "Trusted: the documentation as restated by the property; membership universes avoid bool/number look-alikes.",
+               "TLA+ extension semantics model-checked with TLC against their desugared form; each alias spelling evaluated by the implementation", "5 (C13)"),
+})
+
 NOT_YET = {}
 
 
